@@ -26,7 +26,8 @@ def run(ctx):
     return vlib.finish(ctx, rule="TLC proves the filter+max_by_key and partial fold return an element of Acceptable (matching, not exceeded) and "
                        "nothing only when nothing matches, for every inventory (ordered, with duplicates) of <= 2 (thorough 3) artifacts over "
                        "version x {match, wrong OS, wrong arch, wrong metadata, fails requirement} and <= 4 (thorough 5) over version x "
-                       "{match, fails requirement}, for the total and the partial order; each is built with the real Inventory once per "
+                       "{match, fails requirement} and <= 6 all-matching artifacts (the stated bound; every order, duplicates, incomparable "
+                       "and NaN-like versions), for the total and the partial order; each is built with the real Inventory once per "
                        "query (linux|darwin x amd64|arm64; the classes are relative to the query, so a resolver that ignores or "
                        "hard-wires an argument is seen), resolved with resolve / partial_resolve, rendered and parsed back; 480 checksum shapes are parsed as Checksum<Sha256> and "
                        "Checksum<Sha512>. Non-trivial: >= 2 matching artifacts / checksum near a valid length.", exhaustive=True)
